@@ -57,7 +57,7 @@ Fixpoint run (env : list (string * string)) (body : list sstmt) : option (list e
         | None => None
         end
       else None
-    | SReturn (Some (XCallPtr (XDeref (XVar v)) args)) =>
+    | SReturn (Some (XCallPtr (XVar v) args)) =>
       match lookup env v with
       | Some sym => if forallb pure_expr args then Some ([EvReal sym (map eval args)], RReal) else None
       | None => None
